@@ -1,6 +1,6 @@
 #!/bin/bash
 # usage: seedtest.sh <patch.diff> <property> [tier]   -- apply a seeded change to /repo, run the check, always undo
-patch=$1; prop=$2; tier=${3:-quick}
+patch=$(readlink -f "$1"); prop=$2; tier=${3:-quick}
 if ! git -C /repo diff --quiet; then echo "/repo not clean"; exit 9; fi
 git -C /repo apply "$patch" || { echo "patch does not apply"; exit 8; }
 cp /verif/evidence/$prop.json /tmp/seedtest-ev-$$.json 2>/dev/null
